@@ -1,16 +1,18 @@
 import Driver.Kv
 open Kv
 
-partial def driverLoop (dispatch : String → Line → String) (h : IO.FS.Stream) (out : IO.FS.Stream) : IO Unit := do
+/-- stateful line loop: `dispatch` threads a driver state through the lines (histories) -/
+partial def driverLoop {σ : Type} (dispatch : σ → String → Line → σ × String) (st : σ) (h : IO.FS.Stream) (out : IO.FS.Stream) : IO Unit := do
   let line ← h.getLine
   if line.isEmpty then return ()
   let line := (line.dropRightWhile (fun c => c == '\n' || c == '\r'))
-  if line.isEmpty || line.startsWith "#" then driverLoop dispatch h out else
+  if line.isEmpty || line.startsWith "#" then driverLoop dispatch st h out else
   let (prop, kv) := parseLine line
-  out.putStrLn (dispatch prop kv)
-  driverLoop dispatch h out
+  let (st', res) := dispatch st prop kv
+  out.putStrLn res
+  driverLoop dispatch st' h out
 
-def driverMain (dispatch : String → Line → String) : IO Unit := do
+def driverMain {σ : Type} (dispatch : σ → String → Line → σ × String) (init : σ) : IO Unit := do
   let out ← IO.getStdout
-  driverLoop dispatch (← IO.getStdin) out
+  driverLoop dispatch init (← IO.getStdin) out
   out.flush
